@@ -229,8 +229,12 @@ func TestVerifWalkerSynctest(t *testing.T) {
 
 // TestVerifWalkerRace: the same cases on real goroutines, one subtest per case (run with -race).
 func TestVerifWalkerRace(t *testing.T) {
+	hangs := 0
 	for _, vc := range verifLoadCases(t) {
 		vc := vc
+		if hangs >= 3 {
+			break // enough evidence; every further hang costs the full time bound
+		}
 		t.Run(fmt.Sprintf("case%d", vc.Id), func(t *testing.T) {
 			res := verifResult{Id: vc.Id}
 			done := make(chan struct{})
@@ -242,11 +246,130 @@ func TestVerifWalkerRace(t *testing.T) {
 			case <-done:
 			case <-time.After(20 * time.Second):
 				// Walk is stuck: report without touching res (still owned by the stuck goroutine)
+				hangs++
 				verifEmit(t, verifResult{Id: vc.Id, Deadlock: true, Err: "timeout"})
 				t.Errorf("case %d: Walk did not return", vc.Id)
 				return
 			}
 			verifEmit(t, res)
 		})
+	}
+}
+
+// ---------------------------------------------------------------------------------------------
+// Step-level correspondence of onComplete / startNode / cancelNode / cancelAll: no node routines are
+// started; the test completes nodes one at a time (only nodes that hold a ready message, in a seeded
+// random order) by calling the real onComplete and records, after the asynchronous senders have
+// settled, which nodes hold a ready message and whose cancel channel is closed.
+// ---------------------------------------------------------------------------------------------
+
+type verifStepResult struct {
+	Id    int     `json:"id"`
+	Steps [][]any `json:"steps"` // [node, success, readyBits, cancelBits, failFastTriggered, ctxCancelled]
+	Panic string  `json:"panic,omitempty"`
+}
+
+func verifBits(n int, f func(i int) bool) string {
+	b := make([]byte, n)
+	for i := 0; i < n; i++ {
+		if f(i) {
+			b[i] = '1'
+		} else {
+			b[i] = '0'
+		}
+	}
+	return string(b)
+}
+
+func verifOnCompleteSteps(vc verifCase, res *verifStepResult) {
+	logger := console.NewFromSugared(zap.NewNop().Sugar(), zapcore.ErrorLevel)
+	ctx, cancel := context.WithCancel(console.WithLogger(context.Background(), logger))
+	defer cancel()
+	unsel := map[int]bool{}
+	for _, u := range vc.Unsel {
+		unsel[u] = true
+	}
+	nodes := make([]*model.Target, vc.N)
+	g := NewDirectedGraph()
+	for i := 0; i < vc.N; i++ {
+		nodes[i] = &model.Target{Label: label.TargetLabel{Package: "p", Name: fmt.Sprintf("n%d", i)}, IsSelected: !unsel[i]}
+		g.AddNode(nodes[i])
+	}
+	for _, e := range vc.Edges {
+		g.AddEdge(nodes[e[0]], nodes[e[1]])
+	}
+	failing := map[int]bool{}
+	for _, f := range vc.Fail {
+		failing[f] = true
+	}
+	w := NewWalker(g, func(ctx context.Context, node model.BuildNode) (CacheResult, error) { return CacheMiss, nil }, vc.FailFast)
+	w.allCancel = cancel
+	infos := make([]*nodeInfo, vc.N)
+	for i := 0; i < vc.N; i++ {
+		if unsel[i] {
+			continue
+		}
+		infos[i] = &nodeInfo{done: make(chan Completion, 1), ready: make(chan interface{}, 1), cancel: make(chan interface{}, 1)}
+		w.nodeInfoMap[nodes[i].Label] = infos[i]
+	}
+	for i := 0; i < vc.N; i++ {
+		if !unsel[i] && len(g.inEdges[nodes[i].Label]) == 0 {
+			w.startNode(nodes[i])
+		}
+	}
+	synctest.Wait()
+	ready := func(i int) bool { return infos[i] != nil && len(infos[i].ready) > 0 }
+	cancelled := func(i int) bool {
+		if infos[i] == nil {
+			return false
+		}
+		select {
+		case <-infos[i].cancel:
+			return true
+		default:
+			return false
+		}
+	}
+	completed := map[int]bool{}
+	seed := uint32(vc.Id*7919 + 17)
+	for {
+		var cand []int
+		for i := 0; i < vc.N; i++ {
+			if ready(i) && !completed[i] {
+				cand = append(cand, i)
+			}
+		}
+		if len(cand) == 0 {
+			break
+		}
+		seed = seed*1664525 + 1013904223
+		i := cand[int(seed>>8)%len(cand)]
+		completed[i] = true
+		ok := !failing[i]
+		w.onComplete(nodes[i], Completion{IsSuccess: ok})
+		synctest.Wait()
+		res.Steps = append(res.Steps, []any{i, ok, verifBits(vc.N, ready), verifBits(vc.N, cancelled), w.failFastTriggered, ctx.Err() != nil})
+	}
+}
+
+func TestVerifOnCompleteSteps(t *testing.T) {
+	for _, vc := range verifLoadCases(t) {
+		res := verifStepResult{Id: vc.Id}
+		func() {
+			defer func() {
+				if r := recover(); r != nil {
+					res.Panic = fmt.Sprint(r)
+				}
+			}()
+			synctest.Test(t, func(t *testing.T) { verifOnCompleteSteps(vc, &res) })
+		}()
+		verifOutMu.Lock()
+		f, err := os.OpenFile(os.Getenv("VERIF_WALKER_OUT"), os.O_APPEND|os.O_CREATE|os.O_WRONLY, 0644)
+		if err == nil {
+			b, _ := json.Marshal(res)
+			f.Write(append(b, '\n'))
+			f.Close()
+		}
+		verifOutMu.Unlock()
 	}
 }
